@@ -765,6 +765,10 @@ func c18CheckNLRI(f bgp.Family, n bgp.NLRI, st *verifkit.Stats) *verifkit.Failur
 	if !bytes.Equal(wire, wire2) {
 		return verifkit.Failf("wire-mismatch", "%s (%s): native wire %x, after native->API->native %x (api %v)", c18NLRIInner(n), f, wire, wire2, m)
 	}
+	// (the MP packer budgets with the length the NLRI reports)
+	if l := n2.Len(); l != len(wire2) {
+		return verifkit.Failf("converted-length", "%s (%s): after native->API->native the NLRI reports %d octets and serialises to %d (api %v)", c18NLRIInner(n), f, l, len(wire2), m)
+	}
 	m2, fail := c18MarshalNLRI(n2)
 	if fail != nil {
 		fail.Msg += " (second conversion)"
